@@ -194,7 +194,9 @@ def case_events(raw):
     traced = fault.get("t") != "killtime"
     fin = raw["final"]
     begin = {"a": "Begin", "case": raw["case"], "kind": "path", "inst": raw["inst"], "size": raw["size"],
-             "existed": raw["existed"], "tmp0": "dir" if fault.get("t") == "tmpisdir" else "absent", "traced": traced,
+             "existed": raw["existed"],
+             "tmp0": "dir" if fault.get("t") == "tmpisdir" else ("stale" if raw.get("stale", 0) > 0 else "absent"),
+             "tmp0len": 0 if fault.get("t") == "tmpisdir" else raw.get("stale", 0), "traced": traced,
              "fault": fault_text(fault)}
     evs = [begin]
     info = {"killed": False, "calls": [], "counts": {}, "markers": {}}
